@@ -7,9 +7,13 @@ out = tempfile.mkdtemp(prefix="repo_tests_", dir="/tmp")
 xml = os.path.join(out, "junit.xml")
 env = dict(os.environ)
 env.pop("LITEX_VERIF", None)
-p = subprocess.run(["/venv/bin/python", "-m", "pytest", "-q", "-p", "no:cacheprovider", "--timeout=900", "-x" if "-x" in sys.argv else "-q",
-                    "--continue-on-collection-errors", "--junitxml=" + xml] + [a for a in sys.argv[1:] if a != "-x"],
-                   cwd=os.environ.get("VERIF_REPO", "/repo"), env=env, stdout=subprocess.PIPE, stderr=subprocess.STDOUT, text=True)
+for attempt in range(3):
+    p = subprocess.run(["/venv/bin/python", "-m", "pytest", "-q", "-p", "no:cacheprovider", "--timeout=900", "-x" if "-x" in sys.argv else "-q",
+                        "--continue-on-collection-errors", "--junitxml=" + xml] + [a for a in sys.argv[1:] if a != "-x"],
+                       cwd=os.environ.get("VERIF_REPO", "/repo"), env=env, stdout=subprocess.PIPE, stderr=subprocess.STDOUT, text=True)
+    if os.path.exists(xml):
+        break
+    print("pytest wrote no report (rc=%s), attempt %d; output tail:\n%s" % (p.returncode, attempt, p.stdout[-1500:]))
 passed = set()
 for tc in ET.parse(xml).getroot().iter("testcase"):
     if not any(c.tag in ("failure", "error", "skipped") for c in tc):
